@@ -19,6 +19,23 @@ set: zero, every unit basis field, the affine basis, one generic field) with the
   (periodic); ghost cells at edges/corners, which no boundary condition determines, are modelled as
   documented ("corner cells are set using interpolation"): the mean of the adjacent ghost cells.
 
+Clauses per configuration: centre value (1e-13), reference interpolant (classified: between centres /
+periodic seam / boundary strip / corner strip), range of the data (no bc), invariance under period
+shifts, exactness for the affine basis (also with boundary conditions consistent with the affine
+field), membership (clearly outside => DomainError or exactly ``fill``; |u - boundary| <= 1.5e-9 cell
+widths excluded), linear approach to the imposed value with ``bc`` (zero second difference of three
+collinear points, extrapolated face value), batch == single points, ``interpolate_to_grid``.
+
+Insertion (``insert_case``): at every non-outside lattice point x rank, ``field.insert`` raises the
+integral (py-pde's and an independent sum of volume x value) by the amount on an empty and on a
+generic field; ``NumbaBackend.make_inserter`` (python source in mode I, compiled in mode J) equals it;
+the inserter ``with_ghost_cells=True`` equals it where the deposit lies in valid cells (known
+finding on non-uniform cell volumes, see ``GHOST_NONUNIFORM``).
+
+Mode J: 12 really compiled interpolators (1/2/3 axes x periodic or not x with/without ghost cells)
+and 6 inserters on the same lattice; values compared with the reference and, in the parent, with the
+values of the same worker run in mode I.
+
 See DESIGN.md, C16.  Signatures: ``cart2d|rank1|bc=value|centre value differs``.
 """
 
@@ -539,7 +556,10 @@ def _lattice_case(case):
                 if len(Xb) >= 4:
                     h = len(Xb) // 2
                     n_calls += 1
-                    r2 = f.interpolate(Xb[: 2 * h].reshape(2, h, d), bc=bc_dict, fill=fill)
+                    try:
+                        r2 = f.interpolate(Xb[: 2 * h].reshape(2, h, d), bc=bc_dict, fill=fill)
+                    except DomainError:
+                        r2 = np.zeros(0)
                     if r2.shape != tshape + (2, h) or not np.array_equal(r2.reshape(tshape + (2 * h,)), rb[..., : 2 * h]):
                         report("two-dimensional batch differs from flat batch", f"shape {r2.shape}", us, [name])
             # (1) centre value / reference interpolant, classified by where the point lies
@@ -653,7 +673,12 @@ def _lattice_case(case):
             name = f"aff{a + 1}"
             f.data[...] = field_content(np, geo, rank, name, seed)
             n_calls += 1
-            rb = f.interpolate(Xb, bc=bc_data(np, geo, rank, bck, affine_axis=a), fill=fill)
+            try:
+                rb = f.interpolate(Xb, bc=bc_data(np, geo, rank, bck, affine_axis=a), fill=fill)
+            except DomainError:
+                report("batch refuses points that were accepted singly", f"field {name} with consistent bc", us, [name],
+                       with_fill=True, extra={"affine_bc_axis": a})
+                continue
             n_points += len(Xb)
             R = np.zeros(tshape + L)
             R[(Ellipsis,) + tuple(b_idx.T)] = rb
@@ -684,13 +709,16 @@ def _lattice_case(case):
         content = field_content(np, geo, rank, "generic", seed)
         f.data[...] = content
         n_calls += 1
-        res = f.interpolate_to_grid(g2, bc=bc_dict, fill=fill)
+        try:
+            res = f.interpolate_to_grid(g2, bc=bc_dict, fill=fill)
+        except DomainError:
+            res = None
         us2 = [[(j + 0.5) * shape[a] / (shape[a] + 1) for j in range(shape[a] + 1)] for a in range(d)]
         E = ghost_extend(np, geo, rank, content, bck)
         for a in range(d):
             E = np.tensordot(E, axis_weights(np, us2[a], shape[a], per[a], bck), axes=([0], [1]))
         n_points += E.size
-        if res.data.shape != E.shape or not np.all(np.abs(res.data - E) <= 4 * TOL * max(1.0, float(np.abs(E).max()))):
+        if res is None or res.data.shape != E.shape or not np.all(np.abs(res.data - E) <= 4 * TOL * max(1.0, float(np.abs(E).max()))):
             report("interpolate_to_grid differs from the reference interpolant", f"target {grid_name(spec2)}",
                    [[u[0]] for u in us], ["generic"], extra={"togrid": True})
         outs.add("interpolate_to_grid compared")
